@@ -153,12 +153,14 @@ Definition const_randint (seed start : Z) (s a b : Z) : Z :=
 Inductive C13_case :=
 | CGet (ids : list (list Z)) (data : list (list Z)) (n seed start : Z)
        (table : list (Z * list nat)) (round0 : Z) (ops : list op)
-| CStream (n start : Z) (stream : list Z) (k : nat).
+| CStream (n start : Z) (stream : list Z) (k : nat)
+| CPrs (seed start r : Z).          (* get_pseudo_random_state(seed, r) called directly *)
 
 (* a key is reported as (round, index) when it is split(PRNGKey(round), n)[index] *)
 Inductive C13_obs :=
 | OGet (outs : list (option (list (list Z * list Z * (Z * Z)))))
-| OStream (outs : list (list (Z * (Z * Z)))).
+| OStream (outs : list (list (Z * (Z * Z))))
+| OPrs (rs_seed : Z).               (* the s for which the returned state equals RandomState(s) *)
 
 Definition path_pair (n : Z) (k : kpath) : Z * Z :=
   match k with
@@ -189,5 +191,7 @@ Definition C13_agree (c : C13_case) (o : C13_obs) : bool :=
     let model := s_outputs (fun j => nth j stream (-1)) n k (s_init n start) in
     list_beq (list_beq (fun a b => (fst a =? fst b) && pair_eqb (snd a) (snd b)))
       (map (map (fun x => (fst x, path_pair n (snd x)))) model) outs
+  | CPrs seed start r, OPrs s =>
+    match fast_random_state (const_randint seed start) seed r with Some m => m =? s | None => false end
   | _, _ => false
   end.
